@@ -73,7 +73,10 @@ def c09(tier, vseed):
     quick = tier == "quick"
     plans = []
     if quick:
-        plans.append((["-Zmiri-preemption-rate=0.2"], ["c09", vseed, 0, 3, 6, "build"], 0, 8))
+        # two small batches: the plain build, and a masked integrator route with spurious CAS failures in rayon's deques
+        plans.append((["-Zmiri-preemption-rate=0.2"], ["c09", vseed, 0, 3, 6, "build"], 0, 5))
+        plans.append((["-Zmiri-preemption-rate=0.05", "-Zmiri-compare-exchange-weak-failure-rate=0.8"],
+                      ["c09", vseed, 1, 2, 5, "face_integrals_sym"], 100, 103))
     else:
         nb = int(os.environ.get("VERIF_E2_INPUTS", "12"))
         per = int(os.environ.get("VERIF_E2_SEEDS", "32"))
